@@ -24,6 +24,7 @@ var tiers = map[string][3]int{
 	"C13": {1500, 30000, 0},
 	"C20": {1500, 30000, 0},
 	"C08": {400, 8000, 0},
+	"C17": {2500, 30000, 0},
 }
 
 func tierOf(id string, thorough bool) tierCfg {
@@ -91,5 +92,9 @@ func init() {
 	props["C08"] = propCfg{
 		Rule:        "model-based history generation over 2-4 files (one in a sub-directory) whose contents are drawn from fragments {clean, syntax error, unused local, defines the file's global, reads another file's global, requires another file, unfinished block}: actions create / change / delete of closed files (disk operation + didChangeWatchedFiles), open, edit without saving (full text or incremental), save (disk write + didSave), close (with or without unsaved edits); the model tracks disk contents, open buffers and dirty flags. After every action the publishDiagnostics stream is folded into the per-file view and compared (as a set of file, range, type, message) with (1) the view of a server freshly started on the model's disk contents when no buffer is dirty, and (2) for a dirty buffer: its own syntax errors (computed by a fresh server on the buffer text) if it has any, else the saved file's non-syntax diagnostics; files without unsaved edits must always equal the fresh view. Non-trivial: a history with a create or delete and an edit followed later by a save; distinct by history.",
 		Assumptions: append([]string{"a buffer counts as dirty from its first didChange until save / close, even if its text equals the saved text", "only closed files are created / changed / deleted externally"}, commonAssume...),
+	}
+	props["C17"] = propCfg{
+		Rule:        "workspaces of four files built from 19 fragments that trigger the diagnostic types 2-10, 12-21 (plus a file with a syntax error, type 1), at random; configurations: random subsets of the 25 flags with forced shapes (all but one, single one, the five cross-file flags off), master switch, error-ignore lists and analysis-exclusion lists over literal file names, folder names and regular expressions, per-file type rules (json route); delivered by initializationOptions, by workspace/didChangeConfiguration (sent twice) or by luahelper.json; one case in eight carries malformed settings (invalid regular expressions, truncated JSON, wrongly typed values, unknown keys). Oracle (differential / metamorphic): D_c must equal filter(D_all, c), where D_all is the view of the all-enabled run by the same route and filter removes a diagnostic iff its type is off, the master switch is off, or its file matches an ignore / exclusion / per-file type rule as documented; malformed settings must leave the server alive and either be rejected by initialize or behave as if the bad entry were absent. Non-trivial: a configuration that removes >= 1 and keeps >= 1 diagnostic of D_all; distinct by case.",
+		Assumptions: append([]string{"files are self-contained, so excluding a file from analysis changes only its own diagnostics", "file and folder names are chosen so that patterns cannot match the scratch directory's own path"}, commonAssume...),
 	}
 }
